@@ -103,7 +103,7 @@ def run(ctx):
     known = {f["sig"]: f for f in core.known_for("C14")}
     rnd = random.Random("C14-%d" % ctx.seed)
     n = 150 if ctx.quick() else 5000
-    scs = [solvegen.Gen(random.Random(rnd.random()), small=True, tree=(i % 3 == 0), hist=(i % 3 == 0)).scenario(ncalls=3) for i in range(n)]
+    scs = [solvegen.Gen(random.Random(rnd.random()), small=True, tree=(i % 3 == 0), hist=(i % 3 == 0), free=(i % 3 == 1)).scenario(ncalls=3) for i in range(n)]
     stats = {"evaluations": 0, "known_region": 0, "outcomes": {}}
 
     def judge(scs_, results, crashed):
